@@ -5,8 +5,9 @@
     - SpellingCorruption in every mode: C15's totality and specification theorems transported to the stage;
     - ChatDecode: a template with one {text}; the unit tests of the crate. *)
 From TU Require Import RNG_Model RNG_Proofs RNG_Geometric.
+From TU Require C01_Proofs.
 From TU Require Import Base C01_Model UCD_Model C15_Model C15_Seeded C15_Tables C15_Spell C15_SpellProofs C15_SpellTotal.
-From TU Require Import JSON_Model Pipeline_Model Pipeline_Proofs Pipeline_Tasks Pipeline_TasksProofs C08_Pipeline C08_Bytes.
+From TU Require Import JSON_Model JSON_Roundtrip Pipeline_Model Pipeline_Proofs Pipeline_Tasks Pipeline_TasksProofs C08_Pipeline C08_Bytes.
 From TU Require Import Pipeline_Stages.
 Require Import Lia.
 Local Open Scope nat_scope.
@@ -549,4 +550,137 @@ Proof.
   destruct (g_item_by_index _ _ _ _ _ _ _ _ _ H) as ([fl line] & Hd & Hp).
   exists fl, line. split; [exact Hd|]. intros fl'. unfold pipe_res_t in Hp. cbn [fst snd] in Hp. rewrite <- Hp.
   apply pipeline_tab_function_of_seed; reflexivity.
+Qed.
+
+(** * the misspellings map: [miss_put] is [HashMap::insert] as seen by [miss_lookup] — the last list given for a key is the
+    one that is found, the other keys are untouched *)
+Lemma neq_refl : forall l, nlist_eqb l l = true.
+Proof. intros l. apply C01_Proofs.nlist_eqb_eq. reflexivity. Qed.
+
+Lemma miss_put_same : forall m k v, miss_lookup (miss_put k v m) k = Some v.
+Proof.
+  induction m as [|[k' v'] r IH]; intros k v; cbn [miss_put miss_lookup].
+  - rewrite neq_refl. reflexivity.
+  - destruct (nlist_eqb k k') eqn:E; cbn [miss_lookup]; [rewrite neq_refl; reflexivity|].
+    rewrite E. apply IH.
+Qed.
+
+Lemma miss_put_other : forall m k v w, nlist_eqb w k = false -> miss_lookup (miss_put k v m) w = miss_lookup m w.
+Proof.
+  induction m as [|[k' v'] r IH]; intros k v w Hw; cbn [miss_put miss_lookup].
+  - rewrite Hw. reflexivity.
+  - destruct (nlist_eqb k k') eqn:E; cbn [miss_lookup].
+    + rewrite Hw. apply C01_Proofs.nlist_eqb_eq in E. subst k'. rewrite Hw. reflexivity.
+    + destruct (nlist_eqb w k'); [reflexivity|]. apply IH. exact Hw.
+Qed.
+
+Lemma miss_put_spec : forall m k v,
+  miss_lookup (miss_put k v m) k = Some v /\
+  forall w, nlist_eqb w k = false -> miss_lookup (miss_put k v m) w = miss_lookup m w.
+Proof. intros m k v. split; [apply miss_put_same|intros w Hw; apply miss_put_other; exact Hw]. Qed.
+
+(** * ChatDecode decodes what serde_json writes *)
+Lemma typed_string_print : forall s k, typed_string (jstr_k s k) = Some (s, k).
+Proof. intros s k. unfold typed_string, jstr_k. change (skip_ws (34%N :: ?x)) with (34%N :: x). cbv iota beta.
+  change (34 =? 34)%N with true. cbv iota. apply pstr_esc. Qed.
+
+Lemma typed_bool_print : forall b k, typed_bool (jbool b ++ 125%N :: k) = Some (b, 125%N :: k).
+Proof. intros [|] k; reflexivity. Qed.
+
+Lemma map_text_first : forall f V r p,
+  msg_map (S f) true (34%N :: K_TEXT ++ 34%N :: 58%N :: V) None r p =
+  match typed_string V with Some (x, s5) => msg_map f false s5 (Some x) r p | None => None end.
+Proof. reflexivity. Qed.
+
+Lemma map_role_next : forall f V t p,
+  msg_map (S f) false (44%N :: 34%N :: K_ROLE ++ 34%N :: 58%N :: V) t None p =
+  match typed_string V with Some (x, s5) => msg_map f false s5 t (Some x) p | None => None end.
+Proof. reflexivity. Qed.
+
+Lemma map_partial_next : forall f V t r,
+  msg_map (S f) false (44%N :: 34%N :: K_PARTIAL ++ 34%N :: 58%N :: V) t r None =
+  match typed_bool V with Some (b, s5) => msg_map f false s5 t r (Some b) | None => None end.
+Proof. reflexivity. Qed.
+
+Lemma map_end : forall f rest t r b,
+  msg_map (S f) false (125%N :: rest) (Some t) (Some r) (Some b) = Some (mk_cm t r b, rest).
+Proof. reflexivity. Qed.
+
+Lemma typed_msg_print : forall m rest, typed_msg (print_msg_k m rest) = Some (m, rest).
+Proof.
+  intros [t r b] rest. unfold typed_msg, print_msg_k. cbn [cm_text cm_role cm_partial].
+  change (skip_ws (123%N :: ?x)) with (123%N :: x). cbv iota beta.
+  change (123 =? 123)%N with true. cbv iota.
+  set (V3 := jbool b ++ 125%N :: rest).
+  set (V2 := jstr_k r (44%N :: 34%N :: K_PARTIAL ++ 34%N :: 58%N :: V3)).
+  set (V1 := jstr_k t (44%N :: 34%N :: K_ROLE ++ 34%N :: 58%N :: V2)).
+  change (length (34%N :: K_TEXT ++ 34%N :: 58%N :: V1)) with (S (S (S (S (S (S (S (length V1)))))))).
+  rewrite map_text_first. unfold V1 at 1. rewrite typed_string_print.
+  rewrite map_role_next. unfold V2 at 1. rewrite typed_string_print.
+  rewrite map_partial_next. unfold V3 at 1. rewrite typed_bool_print.
+  rewrite map_end. reflexivity.
+Qed.
+
+
+Lemma seq_end : forall f first rest, msgs_seq (S f) first (93%N :: rest) = Some ([], rest).
+Proof. reflexivity. Qed.
+
+Lemma seq_first : forall f m T,
+  msgs_seq (S f) true (print_msg_k m T) =
+  match typed_msg (print_msg_k m T) with
+  | Some (m', s2) => match msgs_seq f false s2 with Some (l, s3) => Some (m' :: l, s3) | None => None end
+  | None => None
+  end.
+Proof. reflexivity. Qed.
+
+Lemma seq_next : forall f m T,
+  msgs_seq (S f) false (44%N :: print_msg_k m T) =
+  match typed_msg (print_msg_k m T) with
+  | Some (m', s2) => match msgs_seq f false s2 with Some (l, s3) => Some (m' :: l, s3) | None => None end
+  | None => None
+  end.
+Proof. reflexivity. Qed.
+
+Lemma tail_ok : forall l f rest, length l < f -> msgs_seq f false (print_tail l rest) = Some (l, rest).
+Proof.
+  induction l as [|m r IH]; intros f rest Hf; (destruct f as [|f]; [lia|]); cbn [print_tail].
+  - apply seq_end.
+  - cbn [length] in Hf. assert (Hf' : length r < f) by (apply Nat.succ_lt_mono; exact Hf).
+    rewrite seq_next, typed_msg_print, (IH f rest Hf'). reflexivity.
+Qed.
+
+Lemma len_jstr : forall s k, length k < length (jstr_k s k).
+Proof. intros s k. unfold jstr_k. cbn [length]. rewrite app_length. cbn [length]. lia. Qed.
+
+Lemma len_msg : forall m T, length T < length (print_msg_k m T).
+Proof.
+  intros m T. unfold print_msg_k.
+  set (V3 := jbool (cm_partial m) ++ 125%N :: T).
+  set (X2 := 44%N :: 34%N :: K_PARTIAL ++ 34%N :: 58%N :: V3).
+  set (X1 := 44%N :: 34%N :: K_ROLE ++ 34%N :: 58%N :: jstr_k (cm_role m) X2).
+  assert (H3 : length T < length V3) by (unfold V3; rewrite app_length; cbn [length]; lia).
+  assert (H2 : length V3 < length X2) by (unfold X2; cbn [length]; rewrite app_length; cbn [length]; lia).
+  pose proof (len_jstr (cm_role m) X2) as H2'.
+  assert (H1 : length (jstr_k (cm_role m) X2) < length X1) by (unfold X1; cbn [length]; rewrite app_length; cbn [length]; lia).
+  pose proof (len_jstr (cm_text m) X1) as H1'.
+  cbn [length]. rewrite app_length. cbn [length]. unfold cp in *. lia.
+Qed.
+
+Lemma len_tail : forall l rest, length l < length (print_tail l rest).
+Proof.
+  induction l as [|m r IH]; intros rest; cbn [print_tail length]; [lia|].
+  pose proof (len_msg m (print_tail r rest)). pose proof (IH rest). lia.
+Qed.
+
+(** what serde_json writes for a list of chat messages is decoded to exactly that list, whatever the texts and role names
+    contain (quotes, backslashes, control characters, "{text}", non-ASCII) *)
+Theorem chat_roundtrip_l : forall l, chat_of_text (print_chat l) = Some l.
+Proof.
+  intros l. unfold chat_of_text, print_chat. change (skip_ws (91%N :: ?x)) with (91%N :: x). cbv iota beta.
+  change (91 =? 91)%N with true. cbv iota.
+  destruct l as [|m r].
+  - reflexivity.
+  - rewrite seq_first, typed_msg_print.
+    rewrite tail_ok; [reflexivity|].
+    pose proof (len_msg m (print_tail r [])). pose proof (len_tail r []). lia.
 Qed.
